@@ -28,19 +28,23 @@ const (
 	kPoolEntry // *hashPool
 	kFunc
 	kUnit
-	kStrList  // []string
-	kSuitePtr // *SuiteConfig (an in/out parameter)
-	kHashCtor // func() hash.Hash: which hash it constructs, nil when unset
-	kBig      // *big.Int: its value
-	kURLPtr   // *url.URL
-	kUParam   // URLParam
+	kStrList   // []string
+	kSuitePtr  // *SuiteConfig (an in/out parameter)
+	kHashCtor  // func() hash.Hash: which hash it constructs, nil when unset
+	kBig       // *big.Int: its value
+	kURLPtr    // *url.URL
+	kUParam    // URLParam
 	kUParamPtr // *URLParam
-	kPairs    // url.Values, map[string]string: association lists
-	kJsVal    // js.Value
-	kJsList   // []js.Value
-	kJsType   // js.Type: its name
-	kAny      // any: what a callback hands to JavaScript
-	kSuiteI   // the interface Suite: nil, or one of its two implementations (both are their configuration)
+	kPairs     // url.Values, map[string]string: association lists
+	kJsVal     // js.Value
+	kJsList    // []js.Value
+	kJsType    // js.Type: its name
+	kAny       // any: what a callback hands to JavaScript
+	kSuiteI    // the interface Suite: nil, or one of its two implementations (both are their configuration)
+	kCtx       // *fasthttp.RequestCtx (REST mode): the request and the response being built, an in/out parameter
+	kLocal     // a struct of the translated package (REST mode): a generated record
+	kLocalPtr  // pointer to one: an option
+	kDetails   // map[string]any: the details of an error answer (dropped)
 	kOther
 )
 
@@ -51,6 +55,12 @@ func (t *tr) kindOf(ty types.Type) kind {
 		pk := ""
 		if u.Obj().Pkg() != nil {
 			pk = u.Obj().Pkg().Path()
+		}
+		if ln, _ := t.localStruct(u); ln != nil {
+			return kLocal
+		}
+		if pk == libPath && t.pkg.PkgPath != libPath {
+			pk = t.pkg.PkgPath // the library's types, seen from the binding or the REST layer
 		}
 		switch {
 		case pk == "time" && n == "Time":
@@ -117,6 +127,12 @@ func (t *tr) kindOf(ty types.Type) kind {
 			return kBytes
 		}
 	case *types.Pointer:
+		if t.restMode && isRequestCtx(u) {
+			return kCtx
+		}
+		if ln, _ := t.localStruct(u.Elem()); ln != nil {
+			return kLocalPtr
+		}
 		if a, ok := u.Elem().Underlying().(*types.Array); ok {
 			if b, ok := a.Elem().Underlying().(*types.Basic); ok && b.Kind() == types.Uint8 {
 				return kBytes
@@ -148,6 +164,9 @@ func (t *tr) kindOf(ty types.Type) kind {
 			}
 		}
 	case *types.Map:
+		if t.restMode && isDetails(u) {
+			return kDetails
+		}
 		if k, ok := u.Key().Underlying().(*types.Basic); ok && k.Kind() == types.String {
 			if v, ok := u.Elem().Underlying().(*types.Basic); ok && v.Kind() == types.String {
 				return kPairs
@@ -240,8 +259,14 @@ func (t *tr) coqType(n ast.Node, ty types.Type) string {
 		return "(option urlparam)"
 	case kPairs:
 		return "(list (bytes * bytes))"
-	case kUnit:
+	case kUnit, kDetails:
 		return "unit"
+	case kCtx:
+		return "rctx"
+	case kLocal:
+		return "t_" + ty.(*types.Named).Obj().Name()
+	case kLocalPtr:
+		return "(option t_" + derefT(ty).(*types.Named).Obj().Name() + ")"
 	case kFunc:
 		sig := ty.Underlying().(*types.Signature)
 		if sig.Params().Len() != 0 {
@@ -281,8 +306,12 @@ func (t *tr) zero(n ast.Node, ty types.Type) string {
 			return fmt.Sprintf("(repeat 0%%N %d)", a.Len())
 		}
 		return "[]"
-	case kErr, kParamPtr, kHashCtor, kURLPtr, kUParamPtr, kSuiteI:
+	case kErr, kParamPtr, kHashCtor, kURLPtr, kUParamPtr, kSuiteI, kLocalPtr:
 		return "None"
+	case kDetails:
+		return "tt"
+	case kLocal:
+		return "zero_" + ty.(*types.Named).Obj().Name()
 	case kStrList, kPairs:
 		return "[]"
 	case kUParam:
@@ -309,8 +338,14 @@ var fieldProj = map[string][]string{
 // the model's record for Param has the fields in the order Digits, Period, Skew, Algorithm; the order of the
 // Go declaration must be the same for positional constructors to mean the same thing
 func (t *tr) checkStructs() string {
+	scope := t.pkg.Types.Scope()
+	if t.pkg.PkgPath != libPath {
+		if lib := t.pkg.Imports[libPath]; lib != nil {
+			scope = lib.Types.Scope()
+		}
+	}
 	for name, fields := range fieldProj {
-		obj := t.pkg.Types.Scope().Lookup(name)
+		obj := scope.Lookup(name)
 		if obj == nil {
 			return "struct " + name + " not found"
 		}
